@@ -275,7 +275,10 @@ func oracleC09(f *sessionFam, w *World, res *Result) []Violation {
 	// (panics are turned into C09 violations by sessionFam.finish for every session scenario)
 	// work out of proportion: the run passed millions of yield points although the clients
 	// sent a few kilobytes (a decode loop driven by an attacker-chosen number)
-	if res.Outcome == "yields" || res.Outcome == "steps" {
+	// (the hand-off limit counts as work only if the hand-offs are the code's own - tasks blocking and waking each
+	// other; a run that spent its hand-offs on the scheduler's forced pre-emptions was cut short by the exploration
+	// policy, not by the code under test, and is counted as a truncated run)
+	if res.Outcome == "yields" || (res.Outcome == "steps" && res.Steps-res.Preempts > f.sc.MaxSteps/2) {
 		// where the budget ran out: the component (top-level directory of the site), not the function
 		comp := res.LastSite
 		if i := strings.Index(comp, "/"); i > 0 {
